@@ -260,7 +260,7 @@ class ExprMixin:
         n = len(segs) - 1
         targ = self.tag(arg, "fmt-arg")
         args = None
-        if targ == "ref":
+        if targ == "ref" and not self.is_type_object(arg):
             cid = self.class_of(arg, "fmt-arg-class")
             if cid == self.table.id("tuple"):
                 ln = self.ctx.value_of(self.llen(Val.r(arg)))
@@ -303,6 +303,16 @@ class ExprMixin:
             ta = self.tag(a, "eq")
             if ta != "float":
                 return z3.BoolVal(True)
+        known = lambda t: z3.is_app(t) and t.decl().name() in ("VNone", "VBool", "VInt", "VStr", "VFloat", "VRef")
+        if not known(a) and not known(b):
+            # neither side has a syntactically known kind: avoid a 6x6 case split
+            if not self.ctx.branch(z3.Or(Val.is_VRef(a), Val.is_VRef(b)), "eq-involves-object"):
+                return self.prim_eq(a, b)
+            ra = self.ctx.branch(Val.is_VRef(a), "eq-left-is-object")
+            rv = a if ra else b
+            if self.not_agent_object(rv):
+                res = self.host_op("eq", rv, node)      # host __eq__ may run
+                return self.truth(res, node)
         ta, tb = self.tag(a, "eq-l"), self.tag(b, "eq-r")
         nums = ("int", "bool")
         if ta in nums and tb in nums:
@@ -352,6 +362,16 @@ class ExprMixin:
                     return self.truth(res, node)
             return a == b
         return a == b
+
+    def prim_eq(self, a, b):
+        """a == b for two non-object values, as one formula (bool/int/float compare numerically)."""
+        def numeric(v):
+            return z3.Or(Val.is_VBool(v), Val.is_VInt(v), Val.is_VFloat(v))
+
+        def real(v):
+            return z3.If(Val.is_VBool(v), z3.If(Val.b(v), z3.RealVal(1), z3.RealVal(0)),
+                         z3.If(Val.is_VInt(v), z3.ToReal(Val.i(v)), Val.f(v)))
+        return z3.If(z3.And(numeric(a), numeric(b)), real(a) == real(b), a == b)
 
     def compare(self, op, a, b, node):
         if isinstance(op, ast.Is):
@@ -552,6 +572,10 @@ class ExprMixin:
     def _havoc_written(self, writes, idx):
         """Writes performed for the arbitrary element happen for every element: forget those heap parts."""
         for (kind, ref, name) in writes:
+            if ref is not None:
+                rr = z3.simplify(ref)
+                if z3.is_int_value(rr) and rr.as_long() >= self._comp_alloc_mark:
+                    continue        # object created for this very element: private to the iteration
             if kind == "field":
                 self.st.fields[name] = self.ctx.fresh("hvF_" + name, ArrIV)
                 self.st.writes.append(("field*", None, name))
@@ -597,6 +621,7 @@ class ExprMixin:
             self.ctx.assume(z3.And(idx >= 0, idx < seq.length))
             self.assign_target(g.target, seq.element(idx))
             w0, pos0, id0 = len(self.st.writes), self.ctx.pos, getattr(self.st, 'n_data_alloc', 0)
+            self._comp_alloc_mark = self.st.next_id
             passes = all(self.ctx.branch(self.truth(self.eval(c), c), "comp-if") for c in g.ifs)
             elt = self.eval(e.elt) if passes else None
             forked = any(d[1] for d in self.ctx.trace[pos0:]) or self.ctx.pos != pos0 and \
